@@ -25,7 +25,7 @@ ANew(rs, d) ==
   LET r == Construct(rs, d, TRUE) IN
   /\ hist' = Append(hist, [k |-> "new", recs |-> rs, delim |-> d])
   /\ last' = OutKind(r.out)
-  /\ sigs' = Append(sigs, <<"new", OutKind(r.out), Len(rs), HasEmpty(rs), \E i \in 1..Len(rs) : rs[i].ps # {} \/ rs[i].us # {}>>)
+  /\ sigs' = Append(sigs, <<"new", OutKind(r.out), Len(rs), HasEmpty(rs), \E i \in 1..Len(rs) : rs[i].ps # {}, NestKinds(rs)>>)
   /\ convs' = IF r.out = Ok THEN Append(convs, r.conv) ELSE convs
 
 \* convs[i].add_record(ext, case_sensitive=cs, merge=mg)   (via = "record" | "prefix")
